@@ -330,6 +330,76 @@ def run(F, rep):
         rr = [render(r['c'][0]) for r in returns(g) if r.get('c')]
         rep.check(rr == ['pFunc()->%s.size()' % vec], 'C15.L4', 'Logger::%s|vector' % cnt_fn, g.where(), '%s returns %s' % (cnt_fn, rr), 'returns %s.size()' % vec)
 
+    # removeError does not renumber the level vectors: its callers must only ever remove the last issues
+    rep.rule('C15.L5', 'removeError(i) erases one issue without renumbering the level vectors: callers remove errors from the last one downwards, and between their errorCount() snapshot and the removal no warning/message may be added after an error (it would keep a stale index)')
+    from faillog import _can_reach
+    users = [f for f in F.funcs.values() if f.short != 'Logger::LoggerImpl::removeError' and any(n.get('k') == 'Call' and n.get('fn') == 'removeError' for n in f.walk())]
+    if len(users) < 2:
+        raise AnalysisBroken('callers of removeError: %d found, 2 confirmed' % len(users))
+    between = set()
+    for f in users:
+        for n in f.walk():
+            if n.get('k') == 'Call' and n.get('fn') == 'removeError':
+                a = render(nth_arg(n, 0))
+                loops = [x for x in f.ancestors(n) if x.get('k') == 'For']
+                ok = False
+                det = 'removeError(%s) is not inside a descending loop' % a
+                if loops:
+                    L = loops[0]
+                    init, cond, inc = role(L, 'init'), role(L, 'cond'), role(L, 'inc')
+                    iv = None
+                    if init is not None:
+                        for x in walk(init):
+                            if x.get('k') == 'Var':
+                                iv = x
+                    desc = inc is not None and inc.get('k') == 'Un' and inc.get('op') == '--'
+                    start = render(iv['c'][0]) if iv is not None and iv.get('c') else None
+                    # the start value is a snapshot of errorCount() taken after the calls that may add issues
+                    snap = None
+                    for v in f.walk():
+                        if v.get('k') == 'Var' and v.get('n') == start and v.get('c'):
+                            snap = render(v['c'][0])
+                    ok = bool(desc and iv is not None and a == iv['n'] + ' - 1' and snap and snap.endswith('errorCount()'))
+                    det = 'loop from %s (= %s) downwards: %s, argument %s' % (start, snap, desc, a)
+                rep.check(ok, 'C15.L5', '%s|removeError-loop' % f.short, f.where(n), det, det)
+        # functions that add issues between the snapshot and the loop: callees that return before the loop
+        for n in f.walk():
+            if n.get('k') == 'Call' and n.get('fn') in ('fetchImportSource',):
+                for ck in F.callee_keys(n):
+                    between |= F.reach([ck])
+    adders_between = [F.funcs[k] for k in sorted(between) if k in F.funcs and F.funcs[k].file.endswith('importer.cpp') and any(x.get('k') == 'Call' and x.get('fn') == 'addIssue' for x in F.funcs[k].walk())]
+    if not adders_between:
+        raise AnalysisBroken('no issue-adding function between the errorCount() snapshot and removeError')
+    site_by_var = {}
+    for sx in S:
+        site_by_var[(sx.func.key, sx.var['d'])] = sx
+    for g in adders_between:
+        adds = []
+        for n in g.walk():
+            if n.get('k') == 'Call' and n.get('fn') == 'addIssue':
+                a = nth_arg(n, 0)
+                lvl = '?'
+                if a is not None and a.get('k') == 'Ref' and (g.key, a.get('d')) in site_by_var:
+                    lvl = site_by_var[(g.key, a['d'])].effective_level
+                elif a is not None and any(x.get('k') == 'Call' and x.get('fn') == 'error' for x in walk(a)):
+                    lvl = 'ERROR'
+                elif a is not None and any(x.get('k') == 'Call' and x.get('fn') in ('warning', 'message') for x in walk(a)):
+                    lvl = 'NON-ERROR'
+                adds.append((n, lvl))
+        cfgg = g.cfg()
+        for e, le in adds:
+            if le != 'ERROR':
+                continue
+            for m, lm in adds:
+                if m is e or lm == 'ERROR':
+                    continue
+                after = _can_reach(cfgg, e, m) and not (cfgg.block_of(e) == cfgg.block_of(m))
+                rep.check(not after, 'C15.L5', '%s|%s-after-error' % (g.short, lm), g.where(m),
+                          'a %s-level issue can be added after an error in %s; fetchComponent/fetchUnits then remove the error with removeError(), which leaves the %s index pointing past the end (message(i)/warning(i) throw or return the wrong issue)' % (lm, g.short, lm),
+                          'added before any error')
+        if not any(l == 'ERROR' for _, l in adds):
+            rep.note('%s adds no error-level issue' % g.short)
+
     # ------------------------------------------------------------------ I: issue sites
     rep.rule('C15.I1', 'every Issue::IssueImpl::create() result reaches addIssue (or is returned to a caller that adds it) on every path to the function exit')
     rep.rule('C15.I2', 'every created issue gets setDescription with text (an expression containing a non-empty literal, directly or through its local/parameter definitions)')
